@@ -205,6 +205,7 @@ def stage_b_conn(ctx, gen):
                       "real connStats diverges from Accounting.tla (as_found) after %s (fields %s)" % (" ; ".join(m["ops"]), d), m)
     # how many behaviours exercise the windows the as_found variant is about
     lost = silent = split = 0
+    witness = []
     with open(beh) as f:
         for i, line in enumerate(f):
             b = json.loads(line)
@@ -220,6 +221,15 @@ def stage_b_conn(ctx, gen):
                 silent += 1
             if i in (3, 4321):
                 ctx.sample({"stage": "B", "object": "connStats", "behaviour": [fmt_op(x) for x in b]})
+            if mid and not witness and b[-1]["a"] == "Print" and b[-1]["done"] and len(b) <= 6:
+                # a replayed (hence real) schedule in which an outcome is neither printed nor kept: divergence D1
+                outs = [x["tr"] for x in b if x["a"] == "T" and x["tr"].split("To")[1] in ("Reset", "Timeout", "Error", "Close", "Found")]
+                if outs and not any(b[-1]["st"]["glob"][f] for f in ("v4", "v6")):
+                    witness.append({"stage": "B", "witness": "D1 lost update, replayed on the real connStats and matched step by step",
+                                    "behaviour": [fmt_op(x) for x in b], "printed": [l["n"] for x in b if x["a"] == "Print" for l in x["lines"]],
+                                    "final_family_counters": b[-1]["st"]["glob"]})
+    if witness and summ["mismatches"] == 0:
+        ctx.sample(witness[0])
     if summ["split_calls"] == 0 or lost == 0:
         raise vlib.InfraError("no behaviour places a counter call inside PrintAndReset: stage B is vacuous")
     ctx.log("B: connStats replay: %d behaviours, %d steps, %d mismatches" % (summ["behaviours"], summ["steps"], summ["mismatches"]))
